@@ -78,6 +78,16 @@ def extract(ctx, finfo, grid_param, mean_param, np_aliases=("np", "numpy")):
                 loop_.parent = getattr(n, "parent", None)
                 stores.append((store_, loop_))
     if len(stores) != 1:
+        # two formulas for the cells, chosen by a tolerance comparison of a parameter: readable, and not one formula
+        probs_ = []
+        for iff in ast.walk(f.node):
+            if isinstance(iff, ast.If) and any(is_ancestor(iff, st_) for st_, _l in stores):
+                tol = [c for c in ast.walk(iff.test) if isinstance(c, ast.Call) and (dotted_name(c.func) or "").split(".")[-1] in ("isclose", "allclose")]
+                if tol and any(isinstance(x, ast.Name) and x.id in f.params for x in ast.walk(tol[0])):
+                    probs_.append(("viol-call", tol[0],
+                                   "the cells are computed by two different formulas, chosen by the tolerance test %s on a parameter: values of the parameter within the tolerance (atol 1e-8) but not equal take the other formula" % ast.unparse(tol[0])[:50]))
+        if probs_:
+            return None, probs_
         return None, [("indet", f.node, "expected exactly one indexed store inside a loop, found %d" % len(stores))]
     store, loop = stores[0]
     facts.store, facts.loop = store, loop
@@ -261,9 +271,17 @@ def extract(ctx, finfo, grid_param, mean_param, np_aliases=("np", "numpy")):
     if zero is None:
         for n in ast.walk(f.node):
             if isinstance(n, ast.Assign) and isinstance(n.targets[0], ast.Name) and n.targets[0].id == darr \
-                    and isinstance(n.value, ast.Call) and (dotted_name(n.value.func) or "").endswith(".zeros"):
+                    and isinstance(n.value, ast.Call) and (dotted_name(n.value.func) or "").split(".")[-1] in ("zeros", "zeros_like"):
                 facts.zero_ok = True
                 facts.zero = n
+    # the dtype of the increments: an allocation that copies the dtype of the level grid (zeros_like / empty_like / full_like
+    # without dtype=) stores the integrals in whatever the caller's grid is made of
+    facts.alloc_inherits = None
+    for n in ast.walk(f.node):
+        if isinstance(n, ast.Assign) and isinstance(n.targets[0], ast.Name) and n.targets[0].id == darr and isinstance(n.value, ast.Call) \
+                and (dotted_name(n.value.func) or "").split(".")[-1] in ("zeros_like", "empty_like", "full_like", "ones_like") \
+                and not any(k.arg == "dtype" for k in n.value.keywords):
+            facts.alloc_inherits = n
     # ---- cumulative sum and shift: analyse the returned name
     rv = ret.value
     in_return = None
@@ -426,6 +444,11 @@ def report(chk, rule_cells, rule_shift, finfo, facts, probs, what, integral_desc
     chk.ob(rule_cells, facts.zero_ok, where_of(finfo, facts.zero if facts.zero is not None else facts.store),
            "element 0 = %s" % (ast.unparse(facts.zero.value) if facts.zero is not None else "never set"),
            "0 (no cell below the first level)", key="%s|element-zero" % q)
+    if getattr(facts, "alloc_inherits", None) is not None:
+        chk.ob(rule_cells, False, where_of(finfo, facts.alloc_inherits),
+               "the increments are allocated as %s: the array takes the dtype of the level grid" % ast.unparse(facts.alloc_inherits.value)[:60],
+               "a floating-point array (dtype=float), whatever the grid is made of", key="%s|increments-dtype" % q,
+               why="with a grid of whole-number levels given as integers every cell integral is truncated towards zero when it is stored: on a 1 mm grid the curve is flat")
     chk.ob(rule_cells, facts.cumsum_ok, where_of(finfo, facts.base if facts.base is not None else facts.ret),
            "curve = %s" % (ast.unparse(facts.base.value) if facts.base is not None else "?"),
            "cumulative sum of the cell integrals", key="%s|cumsum" % q,
